@@ -21,7 +21,11 @@ import (
 	"unsafe"
 
 	"github.com/gorilla/mux"
+	"github.com/openGemini/openGemini/app"
+	sqlsrv "github.com/openGemini/openGemini/app/ts-sql/sql"
 	"github.com/openGemini/openGemini/lib/config"
+	"github.com/openGemini/openGemini/lib/errno"
+	"github.com/openGemini/openGemini/lib/logger"
 	"github.com/openGemini/openGemini/lib/util/lifted/influx/httpd"
 	"github.com/openGemini/openGemini/services/runtimecfg"
 )
@@ -36,23 +40,52 @@ func (r RouteInfo) Key() string { return r.Method + " " + r.Pattern }
 
 type h2 interface{ VerifRoutes() [][2]string }
 
-// buildHandler builds the HTTP handler exactly as ts-server does for the given configuration file:
-// config parse -> product type -> httpd.NewHandler(c.HTTP) -> routes the application adds afterwards.
-func buildHandler(confPath string) (*httpd.Handler, *config.TSSql, error) {
-	c := config.NewTSSql(false)
+// buildHandler builds the HTTP handler as ts-server does for the given configuration file: config parse -> product type ->
+// the application's own constructor app/ts-sql/sql.NewServer (which calls httpd.NewService/NewHandler and then adds the
+// routes the application registers itself); the handler is taken out of the (not opened) server object.
+// Fallback when the server object cannot be built or has no such field: httpd.NewHandler(c.HTTP) plus a copy of the one
+// registration app/ts-sql/sql/server.go does itself (/runtime_config).
+func buildHandler(confPath string) (h *httpd.Handler, c *config.TSSql, how string, err error) {
+	c = config.NewTSSql(false)
 	if err := config.Parse(c, confPath); err != nil {
-		return nil, nil, fmt.Errorf("parse %s: %v", confPath, err)
+		return nil, nil, "", fmt.Errorf("parse %s: %v", confPath, err)
 	}
 	config.SetProductType(c.Common.ProductType)
-	h := httpd.NewHandler(c.HTTP)
-	// app/ts-sql/sql/server.go NewServer: the only route registered outside the httpd package
+	func() {
+		defer func() {
+			if r := recover(); r != nil {
+				h, how = nil, fmt.Sprintf("sql.NewServer panicked: %v", r)
+			}
+		}()
+		srv, e := sqlsrv.NewServer(c, app.ServerInfo{App: config.AppSingle}, logger.NewLogger(errno.ModuleHTTP))
+		if e != nil {
+			how = "sql.NewServer: " + e.Error()
+			return
+		}
+		v := reflect.ValueOf(srv)
+		if v.Kind() != reflect.Ptr || v.Elem().Kind() != reflect.Struct {
+			how = "sql.NewServer returned " + v.Type().String()
+			return
+		}
+		f := v.Elem().FieldByName("httpService")
+		if !f.IsValid() || f.Type() != reflect.TypeOf((*httpd.Service)(nil)) || f.IsNil() {
+			how = "sql.Server has no *httpd.Service field httpService"
+			return
+		}
+		h = (*httpd.Service)(unsafe.Pointer(f.Pointer())).Handler
+		how = "app/ts-sql/sql.NewServer"
+	}()
+	if h != nil {
+		return h, c, how, nil
+	}
+	h = httpd.NewHandler(c.HTTP)
 	if c.RuntimeConfig.Enabled {
 		h.AddRoutes(httpd.Route{
 			Name: "query-runtime-config", Method: "GET", Pattern: "/runtime_config", LoggingEnabled: true,
 			HandlerFunc: runtimecfg.RuntimeConfigHandler(nil, c.Limits),
 		})
 	}
-	return h, c, nil
+	return h, c, "httpd.NewHandler + copied /runtime_config registration (" + how + ")", nil
 }
 
 func routerOf(h *httpd.Handler) (*mux.Router, error) {
@@ -121,7 +154,7 @@ func prefixRoutes(pprof bool) []RouteInfo {
 	paths := []string{"/debug/vars", "/debug/query"}
 	if pprof {
 		paths = append(paths, "/debug/pprof/", "/debug/pprof/cmdline", "/debug/pprof/symbol", "/debug/pprof/goroutine",
-			"/debug/pprof/heap", "/debug/pprof/all", "/debug/pprof/profile", "/debug/pprof/trace")
+			"/debug/pprof/heap", "/debug/pprof/all", "/debug/pprof/profile")
 	}
 	for _, p := range paths {
 		for _, m := range []string{"GET", "POST"} {
